@@ -2,7 +2,8 @@
 (***************************************************************************)
 (* OPERATIONAL model of update, shaped like the implementation: one rule   *)
 (* per edit method (Distribution.edit_update_with_constraint, the static   *)
-(* UpdateHandler threading change tags, MaskCombinator.edit with its four  *)
+(* UpdateHandler threading change tags, Vmap / Scan element loops,         *)
+(* MaskCombinator.edit with its four                                       *)
 (* flag transitions over a HIDDEN inner trace, Switch.edit with its        *)
 (* same-index / changed-index paths, as repaired in this round).  Internal *)
 (* traces are trees that also hold what the user cannot see (the inner     *)
@@ -24,7 +25,9 @@ EXTENDS GFILaws
 CONSTANTS OpsProgs,        \* catalogue ids (programs over dist / static / mask / switch)
           PV,              \* values a sampler may pick
           MaskBwdAfter,    \* TRUE: (defect) mask discard masked with the flag after the edit
-          SwitchBwdZero    \* TRUE: (defect) switch returns branch 1's discard
+          SwitchBwdZero,   \* TRUE: (defect) switch returns branch 1's discard
+          ScanRetagsAll    \* TRUE: (as implemented, finding KF-C05-2) Scan.edit_update tags every kernel argument UnknownChange;
+                           \* FALSE: the carry's tag is the previous step's return tag, the scanned input keeps its own tag
 
 \* internal trace
 IT(k, args, val, score, ret, subs, flag) == [k |-> k, args |-> args, val |-> val, score |-> score, ret |-> ret, subs |-> subs, flag |-> flag]
@@ -38,6 +41,9 @@ Vis(p, it) ==
     [] p.k = "mask"   -> IF it.flag = 1 THEN Vis(p.subs[1], it.subs[1]) ELSE EmptyF
     [] p.k = "switch" -> Vis(p.subs[it.flag], it.subs[it.flag])        \* flag holds the (1-based, clamped) selected branch
     [] p.k \in {"vmap", "repeat"} ->
+                         LET f[i \in 0..p.n] == IF i = 0 THEN EmptyF ELSE f[i - 1] @@ PrefixMap(<<IdxStr(i - 1)>>, Vis(p.subs[1], it.subs[i]))
+                         IN  f[p.n]
+    [] p.k = "scan" ->
                          LET f[i \in 0..p.n] == IF i = 0 THEN EmptyF ELSE f[i - 1] @@ PrefixMap(<<IdxStr(i - 1)>>, Vis(p.subs[1], it.subs[i]))
                          IN  f[p.n]
 AbsT(p, it) == [args |-> it.args, choices |-> Vis(p, it), score |-> it.score, ret |-> it.ret]
@@ -72,6 +78,15 @@ OSim(p, args, pick) ==
          LET rs == [i \in 1..p.n |-> OSim(p.subs[1], ElemArgs(p, args, i), SubMap(<<IdxStr(i - 1)>>, pick))]
              sc[i \in 0..p.n] == IF i = 0 THEN 0 ELSE sc[i - 1] + rs[i].score
          IN  IT(p.k, args, 0, sc[p.n], Stack([i \in 1..p.n |-> rs[i].ret]), rs, 0)
+    [] p.k = "scan" ->                                                                    \* the documented loop, carry threaded
+         LET st[i \in 0..p.n] ==
+               IF i = 0 THEN [carry |-> args[1], subs |-> <<>>, score |-> 0, outs |-> <<>>]
+               ELSE LET q == st[i - 1]
+                        x == IF args[2].t = "n" THEN Nn ELSE Unstack(args[2], i)
+                        r == OSim(p.subs[1], <<q.carry, x>>, SubMap(<<IdxStr(i - 1)>>, pick))
+                    IN  [carry |-> r.ret.k[1], subs |-> Append(q.subs, r), score |-> q.score + r.score, outs |-> Append(q.outs, r.ret.k[2])]
+             fin == st[p.n]
+         IN  IT("scan", args, 0, fin.score, Tp(<<fin.carry, IF p.n = 0 THEN Nn ELSE Stack(fin.outs)>>), fin.subs, 0)
 
 OR(it, w, disc, rt) == [it |-> it, w |-> w, disc |-> disc, rt |-> rt]
 
@@ -130,6 +145,19 @@ OUpd(p, it, args2, targs, cons, pick) ==
          IN  OR(IT(p.k, args2, 0, acc[p.n].sc, Stack([i \in 1..p.n |-> rs[i].it.ret]), [i \in 1..p.n |-> rs[i].it], 0),
                 acc[p.n].w, acc[p.n].disc, TRUE)
 
+    [] p.k = "scan" ->                      \* Scan.edit_update: step i edits sub-trace i with the new carry
+         LET st[i \in 0..p.n] ==
+               IF i = 0 THEN [carry |-> args2[1], tc |-> targs[1], subs |-> <<>>, score |-> 0, w |-> 0, disc |-> EmptyF, outs |-> <<>>]
+               ELSE LET q  == st[i - 1]
+                        ip == <<IdxStr(i - 1)>>
+                        x  == IF args2[2].t = "n" THEN Nn ELSE Unstack(args2[2], i)
+                        ta == IF ScanRetagsAll THEN <<TRUE, TRUE>> ELSE <<q.tc, targs[2]>>
+                        r  == OUpd(p.subs[1], it.subs[i], <<q.carry, x>>, ta, SubMap(ip, cons), SubMap(ip, pick))
+                    IN  [carry |-> r.it.ret.k[1], tc |-> r.rt, subs |-> Append(q.subs, r.it), score |-> q.score + r.it.score,
+                         w |-> q.w + r.w, disc |-> q.disc @@ PrefixMap(ip, r.disc), outs |-> Append(q.outs, r.it.ret.k[2])]
+             fin == st[p.n]
+         IN  OR(IT("scan", args2, 0, fin.score, Tp(<<fin.carry, IF p.n = 0 THEN Nn ELSE Stack(fin.outs)>>), fin.subs, 0),
+                fin.w, fin.disc, TRUE)
 ---------------------------------------------------------------------------
 VARIABLES pid, cur, old, last
 vars == <<pid, cur, old, last>>
